@@ -38,6 +38,17 @@ check("C12", "model_checking",
       "explicit-state BFS, model + two implementations in lock-step",
       "DESIGN.md §4 C12")
 
+check("C04", "model_checking",
+      "For each of the seven signed endpoints and three session states a correctly signed base request is generated and then every single-component alteration is applied, exhaustively over a finite grammar: signed for every other method name, identity swapped / other key / case change, nonce +-1, every leaf field of the parameter struct (enumerated by reflection, nested PeerInfo included), every signature byte flipped, every truncation length, garbage and re-encoded signatures. Oracle: altered => VerifyFailedError, no panic and an unchanged digest of the whole pool; unaltered => the verification step accepts (also for lower-case wallet spelling).",
+      "Finite alteration grammar (one component at a time); memory driver; the recovery byte of node-style signatures is not judged.",
+      "bounded-exhaustive alteration enumeration on the real endpoints with digest oracle",
+      "DESIGN.md §4 C04")
+check("C06", "model_checking",
+      "All session histories up to depth 2 (quick) / 3 (thorough) are generated and de-duplicated into reachable pool states; in each state every endpoint x refusal kind (bad signature, other key, malformed signature, stale nonce, replayed nonce) x existing/fresh identity is executed on the real pool: the digest of nodes, peers, balances, links, stats, registered connections and host call logs must be identical before and after, and the owner's next legitimate request with a nonce below the refused one must still be accepted.",
+      "Depth bound; memory driver; digest covers what is observable through getters, NumRemotes and the fake hosts' call logs.",
+      "explicit-state enumeration of session states x exhaustive refusal matrix, before/after digest oracle",
+      "DESIGN.md §4 C06")
+
 ALL = ["C%02d" % i for i in range(1, 21)]
 NA_REASON = "check not built yet (work in progress; see DESIGN.md §4 for the planned model-checking design)"
 
